@@ -403,6 +403,25 @@ def run(ctx):
             if not (isinstance(got, ast.Constant) and same(got.value, value)):
                 ctx.violation('c06.literal_value', f'literal {text} parsed to {got!r}, expected Constant({value!r})', {'text': text})
             differential(ctx, f'SELECT {text}', 'literal')
+    # C1b. text with the form of a date that is no calendar date is no literal at all: wherever a literal can stand, the
+    #      statement is rejected (never read as a subtraction of integers), with the error located at that text
+    if ctx.shard == 2 % ctx.nshards:
+        for bad in ('2024-02-30', '2021-02-29', '2024-13-01', '2020-00-10'):
+            for tmpl in ('SELECT {}', 'SELECT ({})', 'SELECT (({}))', 'SELECT ( {} )', 'SELECT 1 + ({}) * 2', 'SELECT x IN ({},)', 'SELECT x IN ({}, 2020-01-01)',
+                         'SELECT x IN (2020-01-01, {})', 'SELECT year({})', 'SELECT year(({}))', 'SELECT x BETWEEN {} AND 2020-01-01', 'SELECT x < ({})',
+                         'SELECT y WHERE x = {}', 'SELECT x FROM OPEN ON {}', 'SELECT x FROM CLOSE ON {}', 'SELECT -({})', 'SELECT x ORDER BY ({})', 'PRINT FROM x > ({})',
+                         'JOURNAL "a" FROM x = ({})', 'BALANCES WHERE ({}) = x'):
+                text = tmpl.format(bad)
+                res = parse_shipped(text)
+                ctx.case(('invalid-date', text), True)
+                ctx.count('obs.invalid_date_texts')
+                at = text.index(bad)
+                if res[0] == 'ok':
+                    ctx.violation('c06.invalid_date_accepted', f'{text!r} is accepted: {res[1]}', {'text': text})
+                elif res[0] == 'exc':
+                    ctx.violation('c06.invalid_date_wrong_exception', f'{text!r}: {res}', {'text': text})
+                elif not (at <= res[1] <= at + len(bad)):
+                    ctx.violation('c06.invalid_date_error_location', f'{text!r}: the error is located at offset {res[1]}, the text that is no date stands at [{at}, {at + len(bad)})', {'text': text})
     # C2. arithmetic on literals without blanks (token boundaries of dates / integers / decimals)
     if ctx.shard == 1 % ctx.nshards:
         for text, exp in tight_arithmetic():
